@@ -49,6 +49,7 @@ type c06Pod struct {
 	Terminating bool
 	InitC       bool // restart count carried by an init container status
 	Sibling     bool // another regular container is listed before the one described here
+	NoLastState bool // the restart count is reported, the last termination is not (lastState: {}, as after a kubelet restart or container garbage collection)
 }
 
 type c06Case struct {
@@ -130,6 +131,7 @@ func c06Gen(r *rand.Rand) c06Case {
 		p.StartAgo = []time.Duration{slow - time.Second, slow, slow + time.Second, 10 * slow}[r.Intn(4)]
 		p.FinishAgo = []time.Duration{10 * time.Second, 3 * time.Minute}[r.Intn(2)]
 		p.Sibling = !p.InitC && r.Intn(4) == 0
+		p.NoLastState = p.Restarts > 0 && r.Intn(5) == 0
 		c.Pods = append(c.Pods, p)
 	}
 	c.Missing = r.Intn(2)
@@ -189,7 +191,7 @@ func c06Build(c c06Case, now time.Time) (map[string]string, *strategy.Parameters
 			pod.DeletionTimestamp = &d
 		}
 		cs := corev1.ContainerStatus{Name: "c", RestartCount: ps.Restarts}
-		if ps.Restarts > 0 {
+		if ps.Restarts > 0 && !ps.NoLastState {
 			cs.LastTerminationState = corev1.ContainerState{Terminated: &corev1.ContainerStateTerminated{Reason: "Error", FinishedAt: metav1.NewTime(now.Add(-ps.FinishAgo))}}
 		}
 		if ps.Waiting != "" {
